@@ -180,4 +180,47 @@ example : call true ⟨[.int, .any], true, [.err]⟩ [.typed .int (some 1), .uni
 
 example : call true ⟨[.int], false, []⟩ [.unil] .none [] = .err := by decide
 
+/-! ### Untyped nil where the parameter type has no nil value (basic kinds, arrays, structs): an error, the function is not run -/
+
+theorem passAll_nil_mismatch (ps : List Ty) (args : List Val) (i : Nat) (p : Ty)
+    (hp : ps[i]? = some p) (ha : args[i]? = some .unil) (hn : nilable p = false) :
+    ∃ e, passAll true ps args = .error e := by
+  induction ps generalizing args i with
+  | nil => simp at hp
+  | cons q qs ih =>
+    cases args with
+    | nil => simp at ha
+    | cons a as =>
+      cases i with
+      | zero =>
+        simp only [List.getElem?_cons_zero, Option.some.injEq] at hp ha
+        subst hp; subst ha
+        exact ⟨false, by simp [passAll, passOne, hn]⟩
+      | succ j =>
+        simp only [List.getElem?_cons_succ] at hp ha
+        obtain ⟨e, he⟩ := ih as j hp ha
+        cases h1 : passOne q a with
+        | none => exact ⟨false, by simp [passAll, h1]⟩
+        | some v => exact ⟨e, by simp [passAll, h1, he]⟩
+
+/-- whatever else the call looks like: an untyped nil in the position of a parameter whose type has no nil value makes `Call`
+    return a descriptive error — `Outcome.err`: the function is not invoked, no target is touched, nothing panics -/
+theorem untyped_nil_for_a_type_without_nil_is_an_error (sig : Sig) (args : List Val) (mode : Mode) (rets : List Val)
+    (ps : List Ty) (i : Nat) (p : Ty) (he : expand sig args.length = some ps)
+    (hp : ps[i]? = some p) (ha : args[i]? = some .unil) (hn : nilable p = false) :
+    call true sig args mode rets = .err := by
+  obtain ⟨e, h⟩ := passAll_nil_mismatch ps args i p hp ha hn
+  have : e = false := by
+    cases e with
+    | false => rfl
+    | true => exact absurd h (passAll_strict_no_panic ps args)
+  subst this
+  simp [call, checkArgs, he, h]
+
+/-- non-vacuity: an array parameter, mandatory or as the element of the variadic tail -/
+example : call true ⟨[.arr], false, []⟩ [.unil] .none [] = .err ∧
+    call true ⟨[.int, .arr], true, []⟩ [.typed .int (some 1), .typed .arr (some 2), .unil] .none [] = .err ∧
+    call true ⟨[.int, .arr], true, []⟩ [.typed .int (some 1), .typed .arr (some 2)] .none [] =
+      .ok [.typed .int (some 1), .typed .arr (some 2)] [] := by decide
+
 end BB.Props.C19
